@@ -138,5 +138,13 @@ def run(R):
             stores = [a for a in atomic_ops(F, fn) if (a.field or "").endswith("::timesToRun") and a.op == "store" and const_val(a.node["args"][0]) == 0]
             sid = calls[0][1]["sid"]
             ok = bool(stores) and any((not pol) and isinstance(strip_casts(at), dict) and strip_casts(at).get("sid") == sid for at, pol, b in fn.guard_atoms(stores[0].pos))
+            cb = calls[0][0][0]
+            if not ok and any(x is None for x in fn.blocks[cb]["succs"]):
+                # the compiler folded `!f()` for this instantiation (a functor that provably always
+                # returns the same value: clang prunes the dead edge). Always-true functor: nothing
+                # to stop; always-false functor: the store must simply follow the call.
+                ok = (not stores) or fn.dominates(calls[0][0], stores[0].pos)
+                R.ob("C26.run-count", fn, calls[0][1], ok, "functor's result is a compile-time constant in this instantiation; %s" % ("no false return exists" if not stores else "the stop-store follows the call unconditionally"), sitekey="false-return-const", why="no further invocation after the function returns false")
+                continue
             R.ob("C26.run-count", fn, calls[0][1], ok, "a false return stores timesToRun = 0" if ok else "a false return does not stop further runs", sitekey="false-return", why="no further invocation after the function returns false")
     R.need("C26.run-count", n, 4, "run-count gates")
